@@ -182,6 +182,9 @@ type Cell struct {
 	// subprocess/monitoring.go spawns (hooked through the instrumented copy of that file) does not get to run its first
 	// statement until the stop call of the cell has returned (Stop, Restart) or been made (the other stops): a legal
 	// schedule of the Go runtime, which promises no bound on when a new goroutine first runs. These cells run one at a time.
+	// "stop-during-start-message" (Start only) = the sink of the library's "Started process [pid]" message is slow: the stop
+	// request is made while Start() is still inside that log call (the process exists, Start() has not returned), and the sink
+	// lets go once the stop call has returned or the tree is gone (or, failing both, after 2 s).
 	Sched string `json:"sched,omitempty"`
 }
 
@@ -206,6 +209,22 @@ func installHold() {
 			<-ch
 		}
 	}
+}
+
+// gateLoggers hands everything to the wrapped loggers and calls onStarted (which may block: a slow sink) when the library
+// logs that the process has started — at that moment the process exists and Start() has not returned yet.
+type gateLoggers struct {
+	logs.Loggers
+	onStarted func()
+}
+
+func (g *gateLoggers) Log(o ...interface{}) {
+	if len(o) == 1 && g.onStarted != nil {
+		if m, ok := o[0].(string); ok && strings.HasPrefix(m, "Started process [") {
+			g.onStarted()
+		}
+	}
+	g.Loggers.Log(o...)
 }
 
 // holdMonitors makes every monitoring goroutine spawned from now on wait; the returned function lets them all go.
@@ -333,6 +352,13 @@ func grid(thorough bool) []Cell {
 				ins := instantsOf(s, thorough)
 				cells = append(cells, Cell{s.Name, st, sp, ins[len(ins)-1], "", "", "monitor-late"})
 			}
+		}
+	}
+	for _, name := range lateShapes {
+		s, _ := shapeByName(name)
+		for _, sp := range lateStops {
+			ins := instantsOf(s, thorough)
+			cells = append(cells, Cell{s.Name, "Start", sp, ins[len(ins)-1], "", "", "stop-during-start-message"})
 		}
 	}
 	return cells
@@ -654,6 +680,20 @@ func runCell(c Cell) (res Result) {
 	if c.Sched == "monitor-late" {
 		release = holdMonitors()
 	}
+	inStartMessage, startReturned := make(chan struct{}), make(chan struct{})
+	var startErr error
+	if c.Sched == "stop-during-start-message" {
+		letGo := make(chan struct{})
+		var once, onceIn sync.Once
+		release = func() { once.Do(func() { close(letGo) }) }
+		loggers = &gateLoggers{Loggers: loggers, onStarted: func() {
+			first := false
+			onceIn.Do(func() { first = true; close(inStartMessage) })
+			if first {
+				<-letGo
+			}
+		}}
+	}
 
 	// ALWAYS clean up, whatever happens below.
 	defer func() {
@@ -711,6 +751,18 @@ func runCell(c Cell) (res Result) {
 		if c.Start == "Execute" {
 			runStarted = true
 			go func() { err := p.Execute(); runCh <- callResult{err, time.Now()} }()
+		} else if c.Sched == "stop-during-start-message" {
+			go func() { startErr = p.Start(); close(startReturned) }()
+			select {
+			case <-inStartMessage:
+			case <-startReturned:
+				res.Engine = fmt.Sprintf("Start returned (%v) without logging that the process started", startErr)
+				return
+			case <-time.After(reachWithin):
+				res.Engine = "Start did not reach its start message within " + reachWithin.String()
+				return
+			}
+			defer func() { release(); <-startReturned }() // registered after the clean-up: runs before it
 		} else if err := p.Start(); err != nil {
 			res.Engine = "Start: " + err.Error()
 			return
@@ -765,7 +817,7 @@ func runCell(c Cell) (res Result) {
 	ok := true
 	switch c.Start {
 	case "Execute", "Start":
-		if c.Sched != "monitor-late" { // in those cells what makes the command a running one is its announcement in the ledger
+		if c.Sched == "" { // in the other cells what makes the command a running one is its announcement in the ledger
 			ok = reach("IsOn() true", func() bool { return subs[0].IsOn() })
 		}
 	case "supervisor":
@@ -816,7 +868,7 @@ func runCell(c Cell) (res Result) {
 		runStarted = false // already consumed
 		return
 	}
-	if c.Sched == "monitor-late" {
+	if c.Sched != "" {
 		on := subs[0].IsOn()
 		res.IsOnAtStop = &on
 	} else if c.Start != "supervisor" && !subs[0].IsOn() {
@@ -866,6 +918,26 @@ func runCell(c Cell) (res Result) {
 	case "Restart":
 		stopIssued = true
 		go func() { err := sub.Restart(); release(); stopCh <- callResult{err, time.Now()} }()
+	}
+	if c.Sched == "stop-during-start-message" {
+		// the sink lets go once the stop call has returned or the tree is gone; 2 s is a fall-back, not an oracle
+		var early *callResult
+		waitUntil(2*time.Second, func() bool {
+			if stopIssued && early == nil {
+				select {
+				case r := <-stopCh:
+					early = &r
+				default:
+				}
+			}
+			return early != nil || len(survivorsOf(dir, judged)) == 0
+		})
+		if early != nil {
+			stopCh <- *early // put back for the clause below
+		}
+		release()
+		<-startReturned
+		res.Note = fmt.Sprintf("Start() returned %v after the sink let go", startErr)
 	}
 	deadline := t0.Add(bound)
 	ms := func(t time.Time) string { return fmt.Sprintf("%d ms", t.Sub(t0).Milliseconds()) }
